@@ -160,7 +160,8 @@ def run(case: dict, lean: Lean) -> Outcome:
     except Exception as e:                      # construction rejected: same for model (cycles cannot be generated), skip class
         return Outcome(True, True, (), {"build_error": type(e).__name__})
     real = run_real(pipe, case)
-    args = {"nodes": model_nodes(case), "inputs": case["inputs"], "requests": case["requests"]}
+    # default connections are resolved inside the model (`LK.Cfg.resolve`), from the builder's defaults as they stand at the last build
+    args = {"nodes": case["nodes"], "inputs": case["inputs"], "requests": case["requests"], "defaults": [[pn, tgt] for pn, tgt in final_defaults(case).items()]}
     as_is = lean.call("c02.run", {"variant": "asIs", **args})
     rep = lean.call("c02.run", {"variant": "repaired", **args})
     corr = real in (as_is, rep)
